@@ -204,7 +204,18 @@ func (c *Ctx) Finish(verifDir string, level string, explanation string, assumpti
 			infos = append(infos, o)
 		}
 	}
+	var allKeys []string
+	for _, o := range obs {
+		if o.Status != "info" {
+			k := o.Key
+			if o.Plat != "" {
+				k += " [" + o.Plat + "]"
+			}
+			allKeys = append(allKeys, k+" : "+o.Status)
+		}
+	}
 	cov := map[string]interface{}{
+		"obligation_list": allKeys,
 		"explanation":         explanation,
 		"obligations":         total,
 		"discharged":          discharged,
